@@ -261,6 +261,8 @@ def gen(rng, nrng, tier):
                 yield ("arma_laws", {"x": x, "P": P, "Q": Q, "lag": lag, "dkind": kind})
         cls = CLASSES[i % len(CLASSES)]
         Pc, Qc, lagc = [(2, 2, 6), (4, 4, 10), (5, 5, 12), (3, 1, 6)][i % 4]
+        if not _in_domain(N, Pc, Qc, lagc) or 2 * Qc + 1 >= N:
+            Pc, Qc, lagc = 2, 2, 6          # keep the class case inside arma_estimate's documented domain
         nfft = [64, 65, None, 48, 33][i % 5]
         if nfft is None and N <= max(Pc, Qc) + 1:
             nfft = 64
